@@ -178,7 +178,7 @@ fn states_for(f: &FnRep, ids: &[u64], values: &[f64], extra_id: u64) -> Vec<Vec<
     out
 }
 
-fn rename(f: &FnRep, map: &dyn Fn(u64) -> u64) -> FnRep {
+pub fn rename(f: &FnRep, map: &dyn Fn(u64) -> u64) -> FnRep {
     match f {
         FnRep::Unset => FnRep::Unset,
         FnRep::Const(c) => FnRep::Const(*c),
@@ -302,6 +302,34 @@ pub fn run(ctx: &Ctx) -> Finish {
             );
         }
     });
+    // Long functions (term counts around and beyond 32 and 64: blocked / chunked summation must not lose
+    // a remainder): distinct ids and ids repeating with period 7, every variant; values by id; the states
+    // lacking the id of the first / a middle / the last term
+    let mut long: Vec<(FnRep, Vec<u64>)> = vec![];
+    for n in [31usize, 32, 33, 40, 63, 64, 65, 100] {
+        for period in [usize::MAX, 7] {
+            let id = |i: usize| ((i % period) * 3 + 1) as u64;
+            let co = |i: usize| [1.0, -0.5, 2.0, 0.25, -1.0][i % 5];
+            let ids: Vec<u64> = (0..n).map(id).collect::<BTreeSet<u64>>().into_iter().collect();
+            long.push((FnRep::Lin { terms: (0..n).rev().map(|i| (id(i), co(i))).collect(), c: 0.5 }, ids.clone()));
+            long.push((FnRep::Quad { entries: (0..n).map(|i| (id(i), id((i * 5 + 1) % n), co(i))).collect(), lin: Some(((0..n).map(|i| (id(i), co(i + 1))).collect(), -1.0)) }, ids.clone()));
+            long.push((FnRep::Poly { terms: (0..n).map(|i| ((0..(i % 4)).map(|k| id((i + k * 3) % n)).collect(), co(i))).collect() }, ids.clone()));
+        }
+    }
+    ctx.note("long_functions", json!(long.len()));
+    ctx.par(long.len(), |l, i| {
+        let (f, ids) = &long[i];
+        l.states += 1;
+        let val = |id: u64, shift: u64| [-1.0, 0.5, 2.0, 0.0, 1.0][((id / 3 + shift) % 5) as usize];
+        let occ: Vec<u64> = f.occurring_ids().into_iter().collect();
+        let mut sts: Vec<Vec<(u64, f64)>> = (0..3).map(|sh| ids.iter().map(|id| (*id, val(*id, sh))).collect()).collect();
+        for miss in [occ.first(), occ.get(occ.len() / 2), occ.last()].into_iter().flatten() {
+            sts.push(ids.iter().filter(|id| *id != miss).map(|id| (*id, val(*id, 1))).collect());
+        }
+        for st in sts {
+            check_case(l, &Case { f: f.clone(), state: st, exact: true });
+        }
+    });
     // Non-dyadic alphabet, rounding-bound comparison
     let mut nd = vec![FnRep::Const(0.1)];
     let nc = [0.1, -1.0 / 3.0, 1e-3, 1e6 + 0.5];
@@ -328,7 +356,7 @@ pub fn run(ctx: &Ctx) -> Finish {
     });
     Finish {
         level: "model_checking",
-        rule: "every function message of the bounded representation alphabet (all variants, unsorted/repeated terms, all 9 (row,col) positions, explicit zeros, absent/zero linear part) x every state over the value grid, plus the states lacking exactly one occurring id; non-trivial = non-zero polynomial and non-empty state".into(),
+        rule: "every function message of the bounded representation alphabet (all variants, unsorted/repeated terms, all 9 (row,col) positions, explicit zeros, absent/zero linear part) x every state over the value grid, plus the states lacking exactly one occurring id; long functions of every variant with 31..100 terms (distinct and repeating ids); non-trivial = non-zero polynomial and non-empty state".into(),
         bounds: json!({
             "ids": [1,2,7], "id_extremes": [0, 3, "u64::MAX"],
             "linear_terms_max": ctx.tier.pick(3,4), "quadratic_entries_max": 3,
